@@ -17,9 +17,10 @@ Proof. unfold ss_apply_w; intros c s now round o H. rewrite H. reflexivity. Qed.
 Lemma ss_step_w_std : forall c s t, cf_ent c = false -> ss_step_w c s t = ss_step c s t.
 Proof. intros c s [[now round] o] H. unfold ss_step_w, ss_step. rewrite ss_apply_w_std by exact H. reflexivity. Qed.
 
-Lemma ss_run_w_std : forall c ts s, cf_ent c = false -> ss_run_w c s ts = ss_run c s ts.
+(* a history of transactions only (no settings change) *)
+Lemma ss_run_w_std : forall c ts s, cf_ent c = false -> ss_run_w c s (map EvTxn ts) = ss_run c s ts.
 Proof.
-  induction ts as [|t tl IH]; intros s H; [reflexivity|]. cbn [ss_run_w ss_run]. rewrite ss_step_w_std by exact H.
+  induction ts as [|t tl IH]; intros s H; [reflexivity|]. cbn [map ss_run_w ss_run]. rewrite ss_step_w_std by exact H.
   destruct (ss_step c s t) as [s1 ok]. rewrite IH by exact H. reflexivity.
 Qed.
 
@@ -205,17 +206,20 @@ Proof.
   - eapply ss_apply_c13; eauto.
 Qed.
 
-Fixpoint ss_run_ok13_w (c : ss_conf) (s : ss_state) (ts : list (Z * Z * ss_op)) : Prop :=
-  match ts with
+Fixpoint ss_run_ok13_w (c : ss_conf) (s : ss_state) (evs : list ss_ev) : Prop :=
+  match evs with
   | [] => True
-  | (now, round, o) :: tl => ss_fired13 s o = false /\ ss_op_wf13 s o /\ ss_run_ok13_w c (fst (ss_step_w c s (now, round, o))) tl
+  | EvTxn (now, round, o) :: tl => ss_fired13 s o = false /\ ss_op_wf13 s o /\ ss_run_ok13_w c (fst (ss_step_w c s (now, round, o))) tl
+  | EvTimeUnit tu :: tl => ss_run_ok13_w (cf_with_tu c tu) s tl
   end.
 
-Theorem ss_run_w_c13 : forall c ts s, st_c13 s -> ss_run_ok13_w c s ts -> st_c13 (fst (ss_run_w c s ts)).
+(* histories of transactions and time-unit changes *)
+Theorem ss_run_w_c13 : forall evs c s, st_c13 s -> ss_run_ok13_w c s evs -> st_c13 (fst (ss_run_w c s evs)).
 Proof.
-  induction ts as [|[[now round] o] tl IH]; cbn [ss_run_w ss_run_ok13_w]; intros s Hs Hok; [exact Hs|].
-  destruct Hok as [Hf [Hwf Hok]]. unfold ss_step_w in *. destruct (ss_apply_w c s now round o) as [s1|] eqn:E.
-  - cbn in Hok. specialize (IH s1). destruct (ss_run_w c s1 tl) as [s2 oks] eqn:Er. cbn.
-    assert (Hs1 : st_c13 s1) by (eapply ss_apply_w_c13; eauto). exact (IH Hs1 Hok).
-  - cbn in Hok. specialize (IH s Hs Hok). destruct (ss_run_w c s tl) as [s2 oks]. exact IH.
+  induction evs as [|[[[now round] o]|tu] tl IH]; cbn [ss_run_w ss_run_ok13_w]; intros c s Hs Hok; [exact Hs| |].
+  - destruct Hok as [Hf [Hwf Hok]]. unfold ss_step_w in *. destruct (ss_apply_w c s now round o) as [s1|] eqn:E.
+    + cbn in Hok. specialize (IH c s1). destruct (ss_run_w c s1 tl) as [s2 oks] eqn:Er. cbn.
+      assert (Hs1 : st_c13 s1) by (eapply ss_apply_w_c13; eauto). exact (IH Hs1 Hok).
+    + cbn in Hok. specialize (IH c s Hs Hok). destruct (ss_run_w c s tl) as [s2 oks]. exact IH.
+  - specialize (IH (cf_with_tu c tu) s Hs Hok). destruct (ss_run_w (cf_with_tu c tu) s tl) as [s2 oks]. exact IH.
 Qed.
